@@ -1,6 +1,6 @@
 (* Model/Dispatch.v — one entry point for the harness: op code + encoded argument -> encoded
    result.  Op codes are listed in harness/ops.py.  Glue, no proofs. *)
-From VK Require Import Base Core STV Codec.
+From VK Require Import Base Core STV Pairwise Rules Codec.
 
 Definition op_remove_cand (v : val) : val :=
   match v with
@@ -83,6 +83,45 @@ Definition op_stv (v : val) : val :=
   | _ => VE EScript
   end.
 
+Definition op_rule (v : val) : val :=
+  match v with
+  | VL [r; p; script] =>
+      match (let! r' := dRule r in let! p' := dProfile p in let! s := dScript script in
+             ok (r', p', s)) with
+      | inl (r', p', s) => runM eStates (run_rule cand ceqb r' p') s
+      | inr e => VE e
+      end
+  | _ => VE EScript
+  end.
+Definition op_pairwise (v : val) : val :=
+  eRes ePwc (let! p := dProfile v in pairwise_graph cand ceqb p).
+Definition eStatus (l : list (cand * (Z * Z))) : val :=
+  VL (map (fun x => VL [ePos (fst x); VZ (fst (snd x)); VZ (snd (snd x))]) l).
+(* queries on recorded states: [states-producing rule, profile, script, list of (query, index)] *)
+Definition run_query (cs : cset) (sts : list estate) (q : val) : val :=
+  match q with
+  | VL [VZ 1; VZ i] => eRes eRanking (get_elected cand sts i)
+  | VL [VZ 2; VZ i] => eRes eRanking (get_eliminated cand sts i)
+  | VL [VZ 3; VZ i] => eRes eRanking (get_remaining cand sts i)
+  | VL [VZ 4; VZ i] => eRes eRanking (get_ranking cand sts i)
+  | VL [VZ 5; VZ i] => eRes eStatus (get_status cand ceqb cs sts i)
+  | _ => VE EScript
+  end.
+Definition op_queries (v : val) : val :=
+  match v with
+  | VL [r; p; script; qs] =>
+      match (let! r' := dRule r in let! p' := dProfile p in let! s := dScript script in
+             let! qs' := dL qs in ok (r', p', s, qs')) with
+      | inl (r', p', s, qs') =>
+          match run_rule cand ceqb r' p' (mkM s []) with
+          | inl (sts, _) => VL (map (run_query (cands p') sts) qs')
+          | inr e => VE e
+          end
+      | inr e => VE e
+      end
+  | _ => VE EScript
+  end.
+
 Definition dispatch (op : Z) (v : val) : val :=
   match op with
   | 1 => op_remove_cand v
@@ -97,5 +136,8 @@ Definition dispatch (op : Z) (v : val) : val :=
   | 10 => op_condense v
   | 11 => op_transfer v
   | 20 => op_stv v
+  | 21 => op_rule v
+  | 30 => op_pairwise v
+  | 40 => op_queries v
   | _ => VE EOther
   end%Z.
